@@ -85,6 +85,8 @@ class AssertBoundsInputs:
     """
 
     def __init__(self, bounds: Tuple[torch.Tensor, ...]):
+        if isinstance(bounds, float):
+            bounds = (bounds,)
         if isinstance(bounds, tuple):
             if any([not 0 <= b <= 1 for b in bounds]):
                 raise IndexError(
